@@ -293,8 +293,39 @@ class C14(Check):
         model = collections.OrderedDict()
         events = []
 
+        CTX = ['plain'] * 6 + ['except', 'except', 'task', 'aexit']
+
+        async def call_in(ctx, a, kw):
+            """the same call from different calling contexts: plain, while the caller is handling an exception, from
+            an __aexit__ that received one, as a task of its own"""
+            if ctx == 'except':
+                try:
+                    raise LookupError('being handled by the caller')
+                except LookupError:
+                    return await cf(*a, **kw)
+            if ctx == 'task':
+                return await asyncio.ensure_future(cf(*a, **kw))
+            if ctx == 'aexit':
+                class CM:
+                    async def __aenter__(self):
+                        return self
+
+                    async def __aexit__(self, *exc):
+                        self.r = await cf(*a, **kw)
+                        return True
+                cm = CM()
+                async with cm:
+                    raise LookupError('leaving the block')
+                return cm.r
+            return await cf(*a, **kw)
+
+        import zlib
+        salt = zlib.crc32(repr(case['seq']).encode())
+
         async def drive():
             for i, (ai, kwi) in enumerate(case['seq']):
+                ctx = CTX[(salt >> (3 * i)) % len(CTX)]
+                st[f'context_{ctx}'] += 1
                 if i in case['ev'] and cache is not None and len(cache):
                     keys = list(cache)
                     victim = keys[case.get('ev_pick', 0) % len(keys)]
@@ -308,8 +339,8 @@ class C14(Check):
                 kw = {nm: materialise(VALUES[v]) for nm, v in kwi}
                 key = (a, frozenset(kw.items()))
                 before = len(inv)
-                r = await cf(*a, **kw)
-                events.append(('call', repr(a), repr(kw), r))
+                r = await call_in(ctx, a, kw)
+                events.append(('call', repr(a), repr(kw), r, ctx))
                 st['calls'] += 1
                 if key in model:
                     st['model_hits'] += 1
